@@ -5,6 +5,7 @@ import gen_lines
 PROPERTY = "C03"
 THEOREM_FILE = "Props/C03.v"
 INTERFACES = "L1 lex, L2 relist, L3 ast (Line::new / Line::ast / Display), L5 sessions (Runtime::enter/execute/interrupt)"
+XCHECK_TAGS = {"exhaustive", "exhaustive-expr", "soup", "mutated", "session"}
 WATCHDOG_MS = 30000      # 65000-deep recursions under full machine load
 PROFILES = ["dev", "dbg"]
 CASE_TIMEOUT = 0.02
